@@ -8,6 +8,7 @@ import importlib
 import json
 import multiprocessing as mp
 import os
+import re
 import sys
 import time
 import traceback
@@ -157,6 +158,13 @@ def decide(pid, tier, seed, mod, targets, results, opts, t_start):
     proofobs = [o for o in mine if not o["backend"].startswith("bounded")]
     n_total = len(proofobs)
     n_dis = sum(1 for o in proofobs if o["status"] == "discharged")
+    # loops whose invariant (entry / preserved / decreases) is not discharged, per function: e.g. {"...data_received": {"loop#1"}}
+    broken_loops: dict = {}
+    for o in obs:
+        if o["status"] != "discharged":
+            m_ = re.search(r"/(loop#\d+)/(?:[^/]+/)?(?:entry|preserved)$|/(loop#\d+)/decreases$", o["id"])
+            if m_:
+                broken_loops.setdefault(o["function"], set()).add((m_.group(1) or m_.group(2)) + ":")
     for o in mine:
         if o["status"] == "discharged":
             continue
@@ -184,12 +192,22 @@ def decide(pid, tier, seed, mod, targets, results, opts, t_start):
             # the witness of a ground obligation is the offending entry of the program text itself, re-read from /repo
             o["replay"] = {"confirmed": True, "detail": "ground obligation evaluated on the working tree; model = the offending entry"}
             replay_res = (True, "")
-        if o["status"] == "refuted" and o["kind"] == "property":
-            if replay_res is not None and replay_res[0] is False:
-                disagreements.append(o)
-            else:
-                violations.append(o)
+        # A property clause refuted on a path that runs through a loop whose invariant obligations are themselves open: the state after
+        # such a loop is whatever the (now unproved) invariant says, so the counter-model says nothing about the code.  The proof broke,
+        # not necessarily the property: decided like a broken auxiliary step (native replay / bounded stand-in), never reported as a
+        # violation on the strength of that counter-model alone.
+        poisoned = o["status"] == "refuted" and o["kind"] == "property" and any(lk in (o.get("path") or "") for lk in broken_loops.get(o["function"], ()))
+        spurious = o["status"] == "refuted" and o["kind"] == "property" and replay_res is not None and replay_res[0] is False
+        if o["status"] == "refuted" and o["kind"] == "property" and not poisoned and not spurious:
+            violations.append(o)
             continue
+        if poisoned:
+            o["detail"] = ("refuted only downstream of an unproved loop invariant; " + (o.get("detail") or ""))[:300]
+        if spurious:
+            # the solver's counter-model does not reproduce on the real code: the model exploited something the encoding leaves open
+            # (an uninterpreted spec function without enough unfolding, an over-approximated library call).  The proof did not go
+            # through; whether the property broke is left to the bounded stand-in - never a violation, never a silent pass.
+            o["detail"] = ("counter-model does not reproduce on the real code: " + str((o.get("replay") or {}).get("detail"))[:160] + "; " + (o.get("detail") or ""))[:300]
         # auxiliary refuted, or unknown: the proof broke; bounded fallback decides whether the property broke
         if replay_res is not None and replay_res[0] is True:
             violations.append(o)
